@@ -25,7 +25,7 @@ def run(prop, tier):
                rule="programs = every sequence of up to %d steps out of 22 cross-module steps (trees, hash table + list, INI incl. missing file, hashes, errors, directory existing/missing, TCP exchange, UDP exchange with and without the optional sender address, refused "
                     "connection, accept/receive time-outs and bind to a port in use, semaphore with two handles, shm with equal and with different sizes, shm buffer handles, zero-size shm that fails, "
                     "joined / detached / foreign threads, all lock types, library loader on a valid, a missing and a non-ELF file, TLS key), each run in a forked ASan child; plus, for every system-call "
-                    "invocation of every single-step program, that call forced to fail (socket, bind, listen, accept, getsockname, getsockopt, shm_open, sem_open, ftruncate, fstat, mmap, opendir, dlopen, "
+                    "invocation of every single-step program, that call forced to fail (socket, bind, listen, accept, getsockname, getsockopt, shm_open, sem_open, ftruncate, fstat, mmap, opendir, dlopen, close reporting EINTR after releasing the descriptor, "
                     "pthread_create). Oracle: allocator, descriptor (/proc/self/fd), shared-mapping (byte exact), IPC-name, pthread-object and dlopen ledgers equal their initial state; no close() of a "
                     "descriptor that is not open. non-trivial = programs whose ledgers balanced" % depth,
                exhaustive=True)
